@@ -28,8 +28,6 @@ ASSUMPTIONS = [
     "keys / set elements are drawn from small concrete alphabets through symbolic indices (selector-symbolic; the "
     "alphabets per tier are in ALPHA and in each obligation's bounds); dict values, defaults and insert indices are "
     "genuinely symbolic ints",
-    "on a FAILING path the harness pins the remaining symbolic inputs to one model value before the engine realises "
-    "the counterexample (one failing path per branch pattern instead of |domain|^k); confirmed paths are untouched",
     "vacuity labels of an obligation whose every path is a replayed violation (modict popitem/poplistitem, dict-form "
     "update/construct on the unchanged tree) are waived by a concrete probe and required again once the operation works",
     "pre-state is built directly (dict.__setitem__ + _keys / linked list through add) from descriptors and "
@@ -73,35 +71,15 @@ def _lower(k):
 
 
 # ----------------------------------------------------------------------------- helpers
-def pin(sym):
-    """Called on a failing path only.  Fixes every still-symbolic input to one feasible value (a constraint, not
-    a branch) so that the engine's realisation of the counterexample yields ONE failing path per branch pattern
-    instead of enumerating |domain|^k value combinations.  Sound for the verdict: all assignments that share the
-    branch decisions of this path reach the same fail() call with the same class key."""
-    if not getattr(sym, "symbolic", False):
-        return
-    import z3
-    from crosshair.statespace import context_statespace
-    from crosshair.tracers import NoTracing
-    with NoTracing():
-        space = context_statespace()
-        if space.solver.check() != z3.sat:
-            return
-        model = space.solver.model()
-        for v in list(sym.vals.values()):
-            var = getattr(v, "var", None)
-            if var is not None:
-                space.add(var == model.evaluate(var, model_completion=True))
-
-
 def fail(sym, key, detail=""):
-    pin(sym)
-    sym.fail(key, detail() if callable(detail) else detail)
+    """detail may be a callable: the engine evaluates it under concrete replay only (formatting symbolic values
+    would realise them), and reads the counterexample from a solver model without enumerating value domains"""
+    sym.fail(key, detail)
 
 
 def chk(sym, c, key, detail=""):
     if not c:
-        fail(sym, key, detail)
+        sym.fail(key, detail)
 
 
 def run(fn):
